@@ -45,7 +45,7 @@ class Scratch:
             if self.repo_copy is None:
                 dst = os.path.join(self.dir, "repo")
                 shutil.copytree(
-                    REPO, dst, ignore=shutil.ignore_patterns("target", ".git", "examples", "assets", "docs")
+                    REPO, dst, ignore=shutil.ignore_patterns("target", ".git", "examples")
                 )
                 self.repo_copy = dst
             return self.repo_copy
